@@ -20,7 +20,7 @@ CONSTANTS DefaultCopied,   \* TRUE: schema defaults are deep-copied before use (
 Acc(k, x) == <<k, x>>
 
 Ops == {"find_mux", "find_legacy", "vreq_params", "vreq_body_pattern_first", "vreq_body_pattern_again", "vreq_body_unique",
-        "vreq_body_defaults", "vresp", "visitjson", "gen_newtype", "gen_sametype"}
+        "vreq_body_defaults", "vresp", "visitjson", "gen_newtype", "gen_sametype", "vreq_body_pattern_customregex"}
 
 Accesses(op) ==
    CASE op = "find_mux" ->
@@ -28,6 +28,8 @@ Accesses(op) ==
      [] op = "find_legacy" -> <<Acc("R", "legacy.tree"), Acc("R", "doc.paths")>>
      [] op = "vreq_params" -> <<Acc("R", "doc.schema")>>
      [] op = "vreq_body_pattern_first" -> <<Acc("R", "doc.schema"), Acc("A", "patternCache"), Acc("A", "patternCache")>>
+     [] op = "vreq_body_pattern_customregex" ->      \* a caller-supplied regex compiler: its matchers must stay the caller's own
+          <<Acc("R", "doc.schema"), Acc("A", "patternCache")>>
      [] op = "vreq_body_pattern_again" -> <<Acc("R", "doc.schema"), Acc("A", "patternCache")>>
      [] op = "vreq_body_unique" -> <<Acc("R", "doc.schema"), Acc("R", "uniqueChecker")>>
      [] op = "vreq_body_defaults" ->
